@@ -342,6 +342,11 @@ def finish(run: Run, lean, level_text, rule, assumptions, extra_cov=None, search
         "notes": run.notes,
         "lean_wall_s": round(lean.get("wall", 0), 1),
     }
+    if proto.SEC_STATUS:
+        # end-to-end RUN lines: how the model obtained each secondary peak list (derived = computed by the model's own
+        # `refine` from the selected primary peak; reordered / ambiguous = more than ten peaks passed and numpy's
+        # unspecified argpartition order / choice at a tie was taken from the real run after a consistency check)
+        cov["secondary_peak_lists"] = dict(proto.SEC_STATUS)
     if extra_cov:
         cov.update(extra_cov)
     ev = {"property_id": run.prop, "tier": run.tier, "seed": run.seed, "level": "proof", "coverage": cov,
